@@ -144,6 +144,15 @@ def generate(rng, tier="quick"):
         netdocs["file:///sim/schemas/defs.json"] = defs
         schema = dict(schema)
         schema["properties"] = dict(schema.get("properties", {}), r={"$ref": target + "#/definitions/x"})
+        if rng.random() < 0.4:
+            # the schema's own id is RELATIVE to --base-uri and has a directory part: references inside it are
+            # relative to <base>/v1/, where the real sibling lives; a decoy sits where a second join would look
+            schema["$id"] = schema["id"] = "v1/schema.json"
+            del netdocs["file:///sim/schemas/defs.json"]
+            netdocs["file:///sim/schemas/v1/defs.json"] = defs
+            netdocs["file:///sim/schemas/v1/v1/defs.json"] = {"definitions": {"x": {"type": rng.choice(["null", "array"])}}}
+            if rng.random() < 0.5:
+                schema["properties"]["q"] = {"$ref": "#/properties/r"}
         fs[spath] = {"bytes": b64(json.dumps(schema).encode("utf-8")), "fault": None}
     many = None
     if sstate is None and rng.random() < 0.06:
@@ -169,6 +178,10 @@ def generate(rng, tier="quick"):
                               1234567, -98765.4321, "a fairly long string value, longer than a chunk", [10, 200, 3000],
                               {"a": "{0} {x} {", "b": "100%s %d %", "c": ["}{", "{error.message}"]},
                               ["{file_name}", "%(x)s", {"a": "{}"}]])
+        if base_uri is not None and rng.random() < 0.6:
+            # reach the reference that --base-uri serves (property "r"), with a value of one of the types it may demand
+            rv = rng.choice(["s", 3, {}, None, [1]])
+            val = dict(val, r=rv) if isinstance(val, dict) else {"r": rv}
         if many is not None and i == 0:
             val = [0] * many
         elif many is not None:
